@@ -211,7 +211,8 @@ claim("C11",
       "two_step_segment_order and two_step_same_order (partial script with the groups as output sections + main script placing the partial "
       "object once per group => the order of the one-step link of the same statements, when group names are pairwise different and no group's "
       "pattern matches a later group's name), two_step_document_order / two_step_document_same_order (any number of segments with their own "
-      "partial objects, when in addition no input section is selectable by the statements of two segments), grab_breaks_order (the clause is false otherwise: known finding KF-C11-prefix-group, replayed "
+      "partial objects, when in addition no input section is selectable by the statements of two segments), generated_two_step (Props/C11Gen.lean: the same for the scripts the writer model generates - partialSegments against addSegments - so "
+      "that only the three conditions on the document remain as hypotheses), grab_breaks_order (the clause is false otherwise: known finding KF-C11-prefix-group, replayed "
       "against slinky and GNU ld on every run). A quarter of the cases is linked both ways with GNU ld (ld -r per partial script, then the main "
       "script): members per output section (from the symbol table) and relative order of all markers are compared, and the order is compared "
       "with what Ld2.twoStep predicts (twostep_model_fidelity). ld -r facts Ld2 encodes (one section per output section, empty ones absent, "
